@@ -79,7 +79,7 @@ var (
 	c01Expires = []string{"", "10", "0s", "-10", "0"}
 	c01LM      = []string{"", "-100", "100"}
 	c01Date    = []string{"now", "-5", "+5", "absent", "invalid"}
-	c01Age     = []string{"", "0", "5", "15", "x", "9223372037", "5, 7"}
+	c01Age     = []string{"", "0", "5", "15", "x", "9223372037", "5, 7", "9223372036854775808", "99999999999999999999"}
 	c01Status  = []int{200, 404, 302}
 	c01ReqDir  = []string{"", "max-age=5", "max-age=100", "min-fresh=5", "max-stale", "max-stale=0", "max-stale=5", "only-if-cached"}
 )
@@ -142,9 +142,11 @@ func runC01(x *mc.X) {
 
 	if threeStep {
 		// a validation round in between: origin answers 304 (freshening) — the ghost is updated per §4.3.4
-		kind := mc.Pick(x, "mid.answer", []string{"304", "304+max-age=20", "200", "200+expires=5", "200+heuristic=5"})
+		kind := mc.Pick(x, "mid.answer", []string{"304", "304+max-age=20", "200", "200+expires=5", "200+heuristic=5", "304+age=100-no-date"})
 		var mid RS
 		switch kind {
+		case "304+age=100-no-date": // the validation reply went through an upstream cache and carries no Date
+			mid = RS{Status: 304, NoTok: true, NoDate: true, H: H("ETag", `"v1"`, "Age", "100")}
 		case "200+expires=5": // a replacement whose lifetime comes from Expires - Date
 			mid = RS{Status: 200, H: H("Expires", httpDate(time.Now().Add(secs(5))), "ETag", `"v2"`)}
 		case "200+heuristic=5": // a replacement whose lifetime is heuristic (10% of 50 s)
@@ -176,7 +178,7 @@ func runC01(x *mc.X) {
 			for _, kv := range mid.H {
 				h304.Add(kv[0], kv[1])
 			}
-			h304.Set("Date", httpDate(c.DoneAt))
+			h304.Set("Date", httpDate(c.DoneAt)) // sent by the origin script, or assigned on receipt when absent
 			st = st.ApplyNotModified(h304, c.At, c.DoneAt)
 		}
 		lifes = st.Lifetimes()
